@@ -293,11 +293,13 @@ def run_check(modname, tier, seed):
     replays_run = 0
     max_replay = int(os.environ.get("VERIF_MAX_REPLAY", "4"))
     # witnesses: a deterministic sample of feasible-path models, replayed on the real build
-    allw = [w for r in results for w in r.get("witnesses", [])]
+    allw = [w for r in results for w in r.get("witnesses", []) if not w.get("always")]
+    always = [w for r in results for w in r.get("witnesses", []) if w.get("always")]      # scenario / conformance replays that run every time
     n_w = int(os.environ.get("VERIF_WITNESSES", "8" if tier == "quick" else "24"))
     if len(allw) > n_w:
         step = len(allw) / float(n_w)
         allw = [allw[int(((i + (seed % 7) / 7.0) * step)) % len(allw)] for i in range(n_w)]
+    allw = always + allw
     witness_ok = 0
     with cf.ProcessPoolExecutor(max_workers=min(nproc, 8), mp_context=ctx) as ex:
         todo = []
